@@ -21,6 +21,20 @@ CHECKS = {
                 design='4.15'),
 }
 
+CHECKS.update({
+    'C18': dict(level='proof', technique='data rules over the type-checked HIR initialisers of the statics vs an independent re-derivation from the CLDR JSON (custom rustc_private driver)',
+                text='Exhaustive proof over every row of the six likely-subtags tables and every element of the four direction constants: bijection with the CLDR keys, '
+                     'values, strict order under the comparator of the binary search, declared lengths, little-endian decode of every integer to a well-formed canonical subtag '
+                     '(byte order taken from the analysed from_raw_unchecked), CLDR version.',
+                note='Trusted: rustc HIR of the initialisers (read by the driver), the checker-side reader/encoder of CLDR identifiers (written from UTS #35). Generators are not re-run.',
+                design='4.18'),
+    'C20': dict(level='translation_validation', technique='cross-configuration comparison of canonical MIR, items, impls, statics and re-export surface per feature set',
+                text='For each crate and feature set (quick: none/likelysubtags/serde/all; thorough: all subsets on impl and facade crates) every body, type, impl, static and root item '
+                     'of the base build is identical in the build with the feature; only additions are allowed; single named exception character_direction.',
+                note='Assumes identical opt-level-0 MIR implies identical behaviour; dependency feature unification (tinystr/serde internals) is not analysed.',
+                design='4.20'),
+})
+
 NOT_YET = {}
 
 
